@@ -20,7 +20,7 @@ from ..core import Acc, Violation, hyp_run, judge, ncpu, trunc
 from ..run import pydoctor_run
 
 ID = "C17"
-RULE = ("roundtrip: grammar-generated project trees x docformat x privacy rules rendered by driver.main; non-trivial when the "
+RULE = ("roundtrip: grammar-generated project trees and link-rich projects x docformat x privacy rules rendered by driver.main (entry location judged from the written pages); non-trivial when the "
         "project has >=1 hidden or private object and >=5 visible ones; distinct by hash of (files, args). robust: mutated "
         "inventories; non-trivial when the payload has >=1 damaged and >=1 intact line, or the container itself is damaged; "
         "distinct by hash of the bytes.")
